@@ -31,10 +31,10 @@ SrcLits == IF op \in UnaryOps THEN OpSym \o <<32>> \o PlainLiteralText(a)
 NonTrivial == R.ok \/ ErrClass(R.e) = "arith"
 
 CaseVars == [kind |-> "eval", check |-> "op", src |-> SrcVars, ctx |-> CtxJson(Ctx), level |-> "string", ek |-> "value",
-             mode |-> "imm", allowed |-> Allowed, exact |-> FALSE, det |-> TRUE, post |-> CtxJson(Ctx), log |-> <<>>,
+             mode |-> "imm", allowed |-> JPats(Allowed), exact |-> FALSE, det |-> TRUE, post |-> CtxJson(Ctx), log |-> <<>>,
              nontrivial |-> NonTrivial]
 CaseLits == [kind |-> "eval", check |-> "op", src |-> SrcLits, ctx |-> CtxJson(NewHashMap), level |-> "tree", ek |-> "value",
-             mode |-> "mut", allowed |-> Allowed, exact |-> FALSE, det |-> TRUE, post |-> CtxJson(NewHashMap), log |-> <<>>,
+             mode |-> "mut", allowed |-> JPats(Allowed), exact |-> FALSE, det |-> TRUE, post |-> CtxJson(NewHashMap), log |-> <<>>,
              nontrivial |-> NonTrivial]
 Emit == lvl = 2 => /\ PrintT(ToJson(CaseVars))
                    /\ (HasLits => PrintT(ToJson(CaseLits)))
